@@ -41,7 +41,7 @@ Val gen_tree(vf::Src& s, int depth, int archId) {
 	default: { size_t n = xml ? 1 + s.len(4) : s.len(5); std::vector<std::pair<Val, Val>> m; for (size_t i = 0; i < n; i++) m.push_back({ refmp::mkStr("k" + std::to_string(i)), gen_tree(s, depth - 1, archId) }); return refmp::mkMap(m); }
 	}
 }
-Cfg stream_cfg(vf::Src& s) { Cfg c; c.stream = true; c.streamKind = static_cast<int>(s.draw(3)); c.chunk = s.coin() ? 1 + s.draw(8) : 1 + s.draw(300); return c; }
+Cfg stream_cfg(vf::Src& s) { Cfg c; c.stream = true; c.streamKind = static_cast<int>(s.draw(4)); c.chunk = s.coin() ? 1 + s.draw(8) : 1 + s.draw(300); return c; }
 
 // mutate bytes: substitution / deletion / insertion / truncation
 std::string mutate(vf::Src& s, const std::string& in, bool& changed) {
@@ -133,6 +133,7 @@ VF_PROPERTY(save_stream_equals_memory, 3, "tree / table saved to memory and to a
 	const int archId = static_cast<int>(c.src.draw(4)); Cfg mem; Cfg sc; sc.stream = true; sc.opt.streamOptions.writeBom = false;
 	if ((archId == JSON || archId == XML) && c.src.coin()) { mem.opt.formatOptions.enableFormat = true; mem.opt.formatOptions.paddingChar = c.src.coin() ? ' ' : '\t'; mem.opt.formatOptions.paddingCharNum = static_cast<uint16_t>(1 + c.src.draw(6)); sc.opt.formatOptions = mem.opt.formatOptions; }
 	std::string b1, b2; Outcome o1, o2;
+	if (c.src.chance(1, 3)) { sc.streamKind = 3; c.label("file"); }   // a file is a stream too (SaveObjectToFile over existing longer content)
 	if (archId == CSV) { static const char seps[] = { ',', ';', '\t', ' ', '|' }; mem.opt.valuesSeparator = sc.opt.valuesSeparator = seps[c.src.draw(5)]; Table t(1 + c.src.len(6)); for (auto& r : t) for (size_t k = 0; k < 3; k++) r["c" + std::to_string(k)] = gen_cell(c.src, mem.opt.valuesSeparator); o1 = save<CsvArchive>(t, b1, mem); o2 = save<CsvArchive>(t, b2, sc); }
 	else { Val tree = gen_tree(c.src, 3, archId); if (tree.t != RT::Arr && tree.t != RT::Map) tree = refmp::mkMap({ { refmp::mkStr("v"), tree } });
 		if (archId == MSGPACK) { o1 = dyn::save<MsgPackArchive>(tree, b1, mem); o2 = dyn::save<MsgPackArchive>(tree, b2, sc); } else if (archId == JSON) { o1 = dyn::save<JsonArchive>(tree, b1, mem); o2 = dyn::save<JsonArchive>(tree, b2, sc); } else { o1 = dyn::save<XmlArchive>(tree, b1, mem); o2 = dyn::save<XmlArchive>(tree, b2, sc); } }
